@@ -340,11 +340,17 @@ impl Sequencer for TreeExhaustiveness {
         let is_conjunctive = parent.as_ref().composition().conjunctive().is_some();
         let mut is_tail_open = true;
         parent.into_tokens().rev().take_while(move |token| {
+            // The tokens of a disjunctive branch are alternatives and none is the tail of another,
+            // so each contributes a term. In particular, an alternative that is a leaf (such as an
+            // empty pattern in an `any` combinator) must not hide the other alternatives.
+            if !is_conjunctive {
+                return true;
+            }
             let token = token.as_ref();
             is_tail_open
                 && token.as_leaf().map_or_else(
                     || {
-                        is_tail_open = !is_conjunctive || is_open(token);
+                        is_tail_open = is_open(token);
                         true
                     },
                     is_open_leaf,
